@@ -97,6 +97,17 @@ ExecOps(self, ops, st) ==
               IN  ExecOps(self, rest, IF r.ok THEN r.st ELSE st)
          [] o.op = "number" ->
               ExecOps(self, rest, [st EXCEPT !.cells = Put(@, <<self, o.s>>, st.bn)])
+         [] o.op = "bh" ->
+              \* 1 if BLOCKHASH(NUMBER - back) is a real hash, 2 if it is zero (the block does not exist or is out of reach)
+              LET n == st.bn - o.back
+                  known == o.back >= 1 /\ o.back <= 256 /\ n >= 0 /\ n <= Height
+              IN  ExecOps(self, rest, [st EXCEPT !.cells = Put(@, <<self, o.s>>, IF known THEN 1 ELSE 2)])
+         [] o.op = "callext" ->
+              \* CALL another account with an op list as call data, result ignored: a Cell interprets it in ITS context
+              \* (its storage, its logs, its nonce); any other account accepts the call and does nothing
+              IF Get(st.code, o.to, "none") = "cell"
+              THEN LET r == ExecOps(o.to, o.ops, st) IN ExecOps(self, rest, IF r.ok THEN r.st ELSE st)
+              ELSE ExecOps(self, rest, st)
          [] o.op = "env" ->
               ExecOps(self, rest, [st EXCEPT !.cells = Put(@, <<self, o.s>>, EnvVal(o.k))])
          [] o.op = "burn" -> ExecOps(self, rest, st)
@@ -135,9 +146,12 @@ ExecCreate(w, from, ckind) ==
       ELSE [valid |-> TRUE, status |-> 1, logs |-> <<>>, created |-> addr,
             world |-> [w1 EXCEPT !.nonce = Put(@, addr, 1), !.code = Put(@, addr, ckind)]]
 
-ExecCellCall(w, from, to, ops) ==
+(* the block number the code of tx observes: the height being built, or - for a simulation with an explicit block - that *)
+BnOf(tx) == IF "bn" \in DOMAIN tx THEN tx.bn ELSE NextH
+
+ExecCellCall(w, from, to, ops, bn) ==
   LET w1 == BumpNonce(w, from)
-      r == ExecOps(to, ops, [cells |-> w1.cells, nonce |-> w1.nonce, code |-> w1.code, logs |-> <<>>, bn |-> NextH])
+      r == ExecOps(to, ops, [cells |-> w1.cells, nonce |-> w1.nonce, code |-> w1.code, logs |-> <<>>, bn |-> bn])
   IN  IF r.ok
       THEN [valid |-> TRUE, status |-> 1, logs |-> r.st.logs, created |-> NULL,
             world |-> [w1 EXCEPT !.cells = r.st.cells, !.nonce = r.st.nonce, !.code = r.st.code]]
@@ -223,7 +237,7 @@ Outcome(w, tx, seen) ==
   CASE Class(w, tx) = "full" ->
          IF tx.gas = "tiny" THEN Invalid(w)
          ELSE IF tx.kind = "create" THEN ExecCreate(w, tx.from, tx.ckind)
-         ELSE IF Code(w, tx.to) = "cell" THEN ExecCellCall(w, tx.from, tx.to, tx.ops)
+         ELSE IF Code(w, tx.to) = "cell" THEN ExecCellCall(w, tx.from, tx.to, tx.ops, BnOf(tx))
          ELSE [valid |-> TRUE, status |-> 1, logs |-> <<>>, created |-> NULL, world |-> BumpNonce(w, tx.from)]
     [] Class(w, tx) = "status" ->
          LET r == ExecIndexer(w, tx.lc)
@@ -240,7 +254,7 @@ CallOut(w, tx) ==
   ELSE IF tx.kind = "create" THEN (IF tx.ckind = "bad" THEN "empty" ELSE "code:" \o tx.ckind)
   ELSE IF Code(w, tx.to) = "cell"
   THEN LET w1 == BumpNonce(w, tx.from)
-           st == [cells |-> w1.cells, nonce |-> w1.nonce, code |-> w1.code, logs |-> <<>>, bn |-> NextH]
+           st == [cells |-> w1.cells, nonce |-> w1.nonce, code |-> w1.code, logs |-> <<>>, bn |-> BnOf(tx)]
            r == ExecOps(tx.to, tx.ops, st)
            v == RetOf(tx.to, tx.ops, st)
        IN  IF r.ok /\ v # -1 THEN "w:" \o ToString(v) ELSE "empty"
